@@ -40,12 +40,13 @@ Proof.
   intros d Hd. apply (pl_nomatch _ _ _ Hpl). apply in_block_regexes_list. exact Hd.
 Qed.
 
-Lemma g_dblock_body l R n doc s m (Hpl : para_line (ienv_of s) l R) : quiet_default s ->
+Lemma g_dblock_body' l R n doc s m : (exists c rest, l = c :: rest) ->
+  (forall k, replaceInline_top (S (S (S (S k)))) (ienv_of s) (Some l) para_expand = iret R) -> quiet_default s ->
   m = {| m_start := 0; m_end := lenN l; m_groups := [Some l; Some l] |} ->
   dblock_body (S (S (S (S n)))) doc 8 para m [] s = Ok (($"<p>" ++ R ++ $"</p>", []), s).
 Proof.
-  intros Hq ->. pose proof Hq as (Hd & Hr & Hqt & Hp & Ho).
-  destruct (pl_first _ _ _ Hpl) as (c0 & rest0 & El & _). subst l. remember (c0 :: rest0) as l eqn:El.
+  intros (c0 & rest0 & El) Hinl Hq ->. pose proof Hq as (Hd & Hr & Hqt & Hp & Ho).
+  subst l. remember (c0 :: rest0) as l eqn:El in *.
   destruct para_facts as (Fname & Fdelim & Fcontent & Fverify & Fopen & Fclose & Fexp & Fre & _).
   unfold dblock_body. rewrite Fdelim.
   unfold bind at 1. cbn [grp nth m_groups ret].
@@ -66,7 +67,7 @@ Proof.
   unfold bind at 1. rewrite Fopen.
   change ($"<p>") with (60 :: $"p>"). rewrite inject_nothing_pending by exact Hp.
   unfold bind at 1. unfold lift.
-  pose proof (pl_inline _ _ _ Hpl n) as Hin. unfold para_expand in Hin. rewrite Hin.
+  pose proof (Hinl n) as Hin. unfold para_expand in Hin. unfold reader, str, char in Hin |- *. rewrite Hin.
   cbn [iret log_msgs bind ret].
   unfold bind at 1. unfold gets at 1. rewrite (nth_para s Hd), Fclose.
   replace (str_eqb (d_name para) $"division") with false by (rewrite Fname; vm_compute; reflexivity).
@@ -76,10 +77,21 @@ Proof.
   rewrite Es by reflexivity. rewrite app_nil_r. reflexivity.
 Qed.
 
-Lemma g_stage_para l R n doc s (Hpl : para_line (ienv_of s) l R) : quiet_default s ->
+Lemma g_dblock_body l R n doc s m (Hpl : para_line (ienv_of s) l R) : quiet_default s ->
+  m = {| m_start := 0; m_end := lenN l; m_groups := [Some l; Some l] |} ->
+  dblock_body (S (S (S (S n)))) doc 8 para m [] s = Ok (($"<p>" ++ R ++ $"</p>", []), s).
+Proof.
+  intros Hq Hm. apply (g_dblock_body' l R n doc s m); auto.
+  - destruct (pl_first _ _ _ Hpl) as (c & rest & E & _). eauto.
+  - exact (pl_inline _ _ _ Hpl).
+Qed.
+
+Lemma g_stage_para' l R n doc s : (exists c rest, l = c :: rest) -> nlfree l ->
+  (forall k, replaceInline_top (S (S (S (S k)))) (ienv_of s) (Some l) para_expand = iret R) ->
+  (forall d, In d (removelast dblocks_default) -> re_search (d_openRe d) l = None) -> quiet_default s ->
   dblocks_render (S (S (S (S n)))) doc [l] [] s = Ok ((Some ($"<p>" ++ R ++ $"</p>"), []), s).
 Proof.
-  intros Hq. pose proof Hq as (Hd & _).
+  intros Hfirst Hnl Hinl Hnom Hq. pose proof Hq as (Hd & _).
   unfold dblocks_render. unfold bind at 1. unfold gets at 1.
   destruct para_facts as (Fname & _ & _ & Fverify & _ & _ & _ & _ & Fsplit & Flen).
   assert (Elen : length (s_dblocks s) = 9%nat) by (rewrite Hd, Fsplit, app_length, Flen; reflexivity).
@@ -87,19 +99,29 @@ Proof.
   pose proof (dblock_loop_skip (S (S (S (S n)))) doc l s (removelast dblocks_default) [] [para] 1) as Sk.
   cbn [length app] in Sk. rewrite Flen in Sk.
   change (8 + 1)%nat with 9%nat in Sk. change (0 + 8)%nat with 8%nat in Sk.
-  rewrite Sk.
+  unfold reader, str, char in Sk |- *. rewrite Sk.
   - cbn [dblock_loop]. unfold bind at 1. unfold gets at 1.
     assert (En : nth_error (s_dblocks s) 8 = Some para).
     { rewrite Hd, Fsplit. rewrite nth_error_app2 by (rewrite Flen; lia). rewrite Flen. reflexivity. }
     rewrite En. cbn [andb].
-    rewrite (para_match l) by (exact (pl_nl _ _ _ Hpl)).
+    rewrite (para_match l) by exact Hnl.
     unfold grp0, grp_s, grp. cbn [nth m_groups].
     rewrite Fname. replace (str_eqb $"paragraph" $"paragraph") with true by reflexivity.
     unfold db_verify. rewrite Fverify. cbn [negb].
-    pose proof (g_dblock_body l R n doc s _ Hpl Hq eq_refl) as Eb.
-    destruct (pl_first _ _ _ Hpl) as (c & rest & El & _). subst l.
-    unfold bind at 1. rewrite Eb. reflexivity.
+    pose proof (g_dblock_body' l R n doc s _ Hfirst Hinl Hq eq_refl) as Eb.
+    destruct Hfirst as (c & rest & El). subst l.
+    unfold bind at 1. unfold reader, str, char in Eb |- *. rewrite Eb. reflexivity.
   - rewrite Hd. exact Fsplit.
+  - exact Hnom.
+Qed.
+
+Lemma g_stage_para l R n doc s (Hpl : para_line (ienv_of s) l R) : quiet_default s ->
+  dblocks_render (S (S (S (S n)))) doc [l] [] s = Ok ((Some ($"<p>" ++ R ++ $"</p>"), []), s).
+Proof.
+  intros Hq. apply (g_stage_para' l R n doc s); auto.
+  - destruct (pl_first _ _ _ Hpl) as (c & rest & E & _). eauto.
+  - exact (pl_nl _ _ _ Hpl).
+  - exact (pl_inline _ _ _ Hpl).
   - intros d Hdin. apply (pl_nomatch _ _ _ Hpl). apply in_block_regexes_dblock. exact Hdin.
 Qed.
 
